@@ -14,7 +14,7 @@ RULE = (
     'canonical regimens in the float form; RP = the myokit.Protocol form with ONE protocol object per model that gets a '
     'further event scheduled and is passed again), set_outputs (two selections), rename parameter / output, enable/disable sensitivities, '
     'copy-and-continue-on-copy, copy-and-keep, wrap in ReducedMechanisticModel + fix / re-fix / release, simulate. '
-    'Tier 1 is EXHAUSTIVE: every sequence of length <= 3 (quick) / <= 4 (thorough) over the 17-letter alphabet on two '
+    'Tier 1 is EXHAUSTIVE: every sequence of length <= 3 (quick) / <= 4 (thorough) over the 18-letter alphabet on two '
     'fixed generated models (1 and 2 compartments) and the library one-compartment model, observed at the end of the '
     'sequence (all prefixes are sequences themselves). Tier 2: Hypothesis draws sequences of up to 25 operations on '
     'freshly generated models / library models (pk, erlotinib) and observes after every step. Non-trivial: an '
@@ -33,7 +33,7 @@ REQUIRED = ['admin_after_config', 'copy_then_mutate', 'wrapped', 'regimen_then_a
             'protocol_object_reused']
 
 TIMES = np.array([0.0, 0.4, 0.7, 1.3, 2.6, 3.9])
-ALPHABET = ['A0', 'A1', 'A2', 'R0', 'R1', 'RP', 'O0', 'O1', 'NP', 'NO', 'S1', 'S0', 'C', 'K', 'F', 'X', 'G']
+ALPHABET = ['A0', 'A1', 'A2', 'R0', 'R1', 'RP', 'O0', 'O1', 'NP', 'NO', 'S1', 'S0', 'C', 'K', 'F', 'X', 'G', 'E']
 REGIMENS = {'R0': dict(dose=2.0, start=0.5, duration=0.2, period=1.0, num=3),
             'R1': dict(dose=1.0, start=0.0, duration=0.01, period=None, num=None)}
 
@@ -423,6 +423,32 @@ def check(case):
                 else:
                     cur.fix_parameters({net.pren.get(q, q): None for q in net.fixed})
                     net.fixed = {}
+            elif op == 'E':
+                # configuration calls that are REJECTED change nothing: a renaming in which the second new name
+                # collides with an existing name, an output selection whose second entry is not a variable, a route
+                # into a compartment that does not exist
+                qn = [q for q in desc.params(net.admin) if not (net.fixed and q in net.fixed)]
+                disp = [net.pren.get(q, q) for q in qn]
+                if len(qn) >= 2:
+                    try:
+                        cur.set_parameter_names({disp[0]: 'Ptmp', disp[1]: disp[-1] if len(qn) > 2 else disp[0]})
+                    except ValueError:
+                        pass
+                    else:
+                        case.fail('accepted', 'a renaming onto an existing parameter name was accepted')
+                try:
+                    cur.set_outputs([desc.states[0], 'no_such_compartment.no_such_variable'])
+                except (KeyError, ValueError):
+                    pass
+                else:
+                    case.fail('accepted', 'an output selection with an unknown variable was accepted')
+                if not wrapped:
+                    try:
+                        cur.set_administration('no_such_compartment', amount_var='drug_amount', direct=True)
+                    except (KeyError, ValueError):
+                        pass
+                    else:
+                        case.fail('accepted', 'a route into an unknown compartment was accepted')
             elif op == 'X':
                 # one fix_parameters call that releases a fixed parameter and fixes a free one (the number of free
                 # parameters stays the same); a plain fix if nothing is fixed yet
